@@ -223,6 +223,9 @@ func Render(s *Spec, o RenderOpts) string {
 			precOnly[ti] = true
 		}
 	}
+	if s.EOFAlias != "" {
+		blocks = append(blocks, block{"%token" + l.ws() + s.EOFAlias + l.ws() + "-1", -1})
+	}
 	for _, nt := range s.NTs {
 		if nt.Tag != "" {
 			blocks = append(blocks, block{"%type" + l.ws() + "<" + nt.Tag + ">" + l.ws() + nt.Name, -1})
@@ -373,10 +376,21 @@ func goTokenCases(s *Spec) string {
 	return b.String()
 }
 
+func goEOF(s *Spec) string {
+	if s.EOFAlias != "" {
+		return s.EOFAlias
+	}
+	return "-1"
+}
+
 func goEpilogue(s *Spec, o RenderOpts) string {
 	var b strings.Builder
 	if o.Epi == EpiMinimal {
-		b.WriteString("func GetToken(input string, val *ValType, pos *int) int {\n\t_ = fmt.Sprint\n\treturn -1\n}\n")
+		eof := "-1"
+		if s.EOFAlias != "" {
+			eof = s.EOFAlias
+		}
+		b.WriteString("func GetToken(input string, val *ValType, pos *int) int {\n\t_ = fmt.Sprint\n\treturn " + eof + "\n}\n")
 		if !s.NoRec {
 			b.WriteString("func Rec(r int) {}\n")
 		}
@@ -392,7 +406,7 @@ func goEpilogue(s *Spec, o RenderOpts) string {
 			break
 		}
 	}
-	b.WriteString("func GetToken(input string, val *ValType, pos *int) int {\n\tidx, v := HookNext(" + incoming + ")\n\t_ = v\n\t*val = ValType{}\n\tswitch idx {\n\tcase -1:\n\t\treturn -1\n\tcase -2:\n\t\treturn v\n")
+	b.WriteString("func GetToken(input string, val *ValType, pos *int) int {\n\tidx, v := HookNext(" + incoming + ")\n\t_ = v\n\t*val = ValType{}\n\tswitch idx {\n\tcase -1:\n\t\treturn " + goEOF(s) + "\n\tcase -2:\n\t\treturn v\n")
 	b.WriteString(goTokenCases(s))
 	b.WriteString("\t}\n\treturn -1\n}\n\n")
 	st := startTag(s)
@@ -410,6 +424,9 @@ func goEpilogue(s *Spec, o RenderOpts) string {
 		b.WriteString("func VParse(c interface{}) (interface{}, bool) {\n\tr := Parser(\"\")\n\tif r == nil {\n\t\treturn nil, false\n\t}\n\treturn " + ret + ", true\n}\n")
 	}
 	b.WriteString("func VConsts() map[string]int {\n\treturn map[string]int{\n")
+	if s.EOFAlias != "" {
+		b.WriteString(fmt.Sprintf("\t\t%q: %s,\n", s.EOFAlias, s.EOFAlias))
+	}
 	for _, t := range s.Terms {
 		if t.Name != "" {
 			b.WriteString(fmt.Sprintf("\t\t%q: %s,\n", t.Name, t.Name))
@@ -426,7 +443,7 @@ func goEpilogue(s *Spec, o RenderOpts) string {
 func tsEpilogue(s *Spec, o RenderOpts) string {
 	var b strings.Builder
 	if o.Epi == EpiMinimal {
-		b.WriteString("function GetToken(input :string, model:{ValType :ValType, pos :number}) :number {\n\treturn -1\n}\n")
+		b.WriteString("function GetToken(input :string, model:{ValType :ValType, pos :number}) :number {\n\treturn " + goEOF(s) + "\n}\n")
 		if !s.NoRec {
 			b.WriteString("function Rec(r :number) {}\n")
 		}
@@ -440,7 +457,7 @@ func tsEpilogue(s *Spec, o RenderOpts) string {
 			break
 		}
 	}
-	b.WriteString("function GetToken(input :string, model:{ValType :ValType, pos :number}) :number {\n\tlet nx = HookNext(" + tsIncoming + ")\n\tlet idx = nx[0]\n\tlet v = nx[1]\n\tmodel.ValType = new ValType()\n\tswitch (idx) {\n\tcase -1:\n\t\treturn -1\n\tcase -2:\n\t\treturn v\n")
+	b.WriteString("function GetToken(input :string, model:{ValType :ValType, pos :number}) :number {\n\tlet nx = HookNext(" + tsIncoming + ")\n\tlet idx = nx[0]\n\tlet v = nx[1]\n\tmodel.ValType = new ValType()\n\tswitch (idx) {\n\tcase -1:\n\t\treturn " + goEOF(s) + "\n\tcase -2:\n\t\treturn v\n")
 	for ti, t := range s.Terms {
 		fmt.Fprintf(&b, "\tcase %d:\n", ti)
 		for fi, f := range s.Fields {
@@ -467,6 +484,10 @@ func tsEpilogue(s *Spec, o RenderOpts) string {
 	b.WriteString("\t}\n\treturn -1\n}\n")
 	b.WriteString("function VConsts() {\n\treturn {")
 	first := true
+	if s.EOFAlias != "" {
+		b.WriteString(s.EOFAlias + ": " + s.EOFAlias)
+		first = false
+	}
 	for _, t := range s.Terms {
 		if t.Name != "" {
 			if !first {
